@@ -472,6 +472,10 @@ impl Decoder {
                 .decrypt_padded_mut::<NoPadding>(&mut wrapped_key)
                 .map_err(|_| PdfError::InvalidPassword));
 
+            // /UE and /OE hold the 32 byte file key: anything shorter cannot be used by the AES-256 cipher
+            if key_slice.len() < 32 {
+                bail!("the file encryption key has {} bytes instead of 32 (/UE or /OE too short)", key_slice.len());
+            }
             let decoder = Decoder::new(key_slice.into(),  32, method, dict.encrypt_metadata);
             Ok(decoder)
         } else {
